@@ -708,11 +708,13 @@ def norm_param_type(kind, t):
     return t
 
 
-def impl_signatures(headers_src):
+def impl_signatures(headers_src, future=False):
+    """future: the module starts with `from __future__ import annotations`, so every annotation of the function
+    objects is a string while the def nodes still hold expressions"""
     from pyanalyze.checker import Checker
     from pyanalyze.value import CallableValue
 
-    code = PRELUDE
+    code = ("from __future__ import annotations\n" if future else "") + PRELUDE
     for j, (h, r) in enumerate(headers_src):
         code += fdef(f"m{j}", h, r) + ":\n    raise NotImplementedError\n"
     code += "def outer():\n"
@@ -1266,6 +1268,30 @@ def run(tier: str, replay: str | None = None):
                 validated += 1
             else:
                 corr.append(({"header": jsonable(h), "source": src}, {"from_def": jsonable(d), "from_runtime": jsonable(r)}, jsonable(m), "DefSig.sig_from_def/sig_from_runtime vs compute_parameters/from_signature"))
+    # ------------------------------------------------------------------ signatures again, with stringified annotations
+    n_future = 0
+    if headers and not replay:
+        pick = [i for i, h in enumerate(headers) if unmodelled_header(h)] + list(range(min(len(headers), 40 if quick else 400)))
+        pick = sorted(set(pick))
+        fsigs = impl_signatures([hsrc[i] for i in pick], future=True)
+        for i, s2 in zip(pick, fsigs):
+            h, hs = headers[i], hsrc[i]
+            n_future += 1
+            src = "from __future__ import annotations; " + fdef("f", hs[0], hs[1])
+            if isinstance(s2["rt"], str) or s2["def"] is None or s2["rt"] is None:
+                if isinstance(s2["rt"], str) and not star_args_header(h):
+                    failing.append(({"header": jsonable(h), "source": src}, {"from_runtime": s2["rt"]}, "ArgSpecCache.get_argspec raised (annotations stringified by the __future__ import)"))
+                continue
+            d2 = ([tuple(p) for p in s2["def"][0]], s2["def"][1])
+            r2 = ([tuple(p) for p in s2["rt"][0]], s2["rt"][1])
+            ok2 = jsonable(d2) == jsonable(r2)
+            bump("sig_verdict", "future-annotations:" + ("same" if ok2 else "differ"))
+            if not ok2:
+                if star_args_header(h) and "C13-bare-star-args-annotation" in findings_text and [p[:3] for p in d2[0]] == [p[:3] for p in r2[0]]:
+                    rep.known("C13-bare-star-args-annotation", findings_text["C13-bare-star-args-annotation"])
+                else:
+                    failing.append(({"header": jsonable(h), "source": src}, {"from_def": jsonable(d2), "from_runtime": jsonable(r2)},
+                                    "with `from __future__ import annotations` the signature from the def node differs from the signature of the function object"))
     # ------------------------------------------------------------------ calls
     n_calls = 0
     if headers and not replay:
@@ -1419,7 +1445,7 @@ def run(tier: str, replay: str | None = None):
         rep.violation({"kind": "broken-obligation", "theorem": "; ".join(proof.broken), "log": proof.log[-1500:]}, no_failing_input=True)
 
     rep.coverage.update(
-        evaluations=len(exprs) * 5 + len(headers) * 2 + n_calls * 3 + n_meth + n_kind,
+        evaluations=len(exprs) * 5 + len(headers) * 2 + n_calls * 3 + n_meth + n_kind + n_future * 2,
         method_observations=n_meth,
         function_kind_observations=n_kind,
         distinct_nontrivial=len(distinct),
